@@ -26,7 +26,7 @@ RULE = ("two inverter objects (all ordered pairs of 8 templates: ET 205 eco-v2 /
 ASSUMPTIONS = ["results are compared by type name, str() and (for eco-mode / schedule values) their public fields",
                "each transcript runs in its own interpreter started by the check (subprocess per transcript)"]
 MUST = ["transcripts", "interleavings_compared", "concurrent_interleavings", "snapshots_checked", "eco_values_snapshotted",
-        "cross_family_pairs", "same_template_pairs", "requests_compared", "concurrent_with_fragmented_answers", "long_history_pairs"]
+        "cross_family_pairs", "same_template_pairs", "requests_compared", "concurrent_with_fragmented_answers", "long_history_pairs", "same_host_pairs"]
 EXHAUSTIVE = {"quick": False, "thorough": False}
 
 TEMPLATES = ["ET205", "ET205g", "ET205u", "ET745", "ETv1", "ETf", "ETc", "DT", "DTu", "DTc", "ESv1", "ESv2", "ESv2g"]
@@ -117,7 +117,7 @@ def worker(spec):
         if o.get("frag"):           # this inverter answers in two pieces (same in its solo transcript)
             sim.frag = tuple(o["frag"])
         sims_.append(sim)
-        peers[(f"inv{i}", o["port"])] = sim
+        peers[(o.get("host", f"inv{i}"), o["port"])] = sim
     results = [[] for _ in objs]
     kept = []
 
@@ -143,7 +143,7 @@ def worker(spec):
         fams = {"ET": g.ET, "DT": g.DT, "ES": g.ES}
         for i, o in enumerate(objs):
             # only the objects that take part in this transcript exist in this interpreter ("run alone" means alone)
-            invs.append(fams[o["template"][:2]](f"inv{i}", o["port"], o.get("comm", 0), 1, 0) if i in spec["active"] else None)
+            invs.append(fams[o["template"][:2]](o.get("host", f"inv{i}"), o["port"], o.get("comm", 0), 1, 0) if i in spec["active"] else None)
         # device info always first, in object order (identical in solo and interleaved runs)
         for i in spec["active"]:
             await invs[i].read_device_info()
@@ -277,6 +277,8 @@ def scenario_check(sc, part, workdir):
             return
     if sc.get("long_history"):
         part.count("long_history_pairs")
+    if sc.get("same_host"):
+        part.count("same_host_pairs")
     if objs[0]["template"][:2] != objs[1]["template"][:2]:
         part.count("cross_family_pairs")
     if objs[0]["template"] == objs[1]["template"]:
@@ -374,6 +376,21 @@ def fragment_scenarios(seed):
     return out
 
 
+def same_host_scenarios(seed):
+    """two inverters behind ONE host name on different UDP ports (port-forwarding gateway, simulators on localhost)"""
+    out = []
+    rr = [["read_runtime_data"], ["read_setting", "grid_export_limit"]]
+    wr = [["write_setting", "grid_export_limit", 44], ["read_setting", "grid_export_limit"]]
+    for a, b in (("DT", "DT"), ("ET205", "ET205"), ("ET205", "DT"), ("ESv1", "ESv1")):
+        for ca, cb in ((rr, rr), (rr, wr)):
+            if a.startswith("ES"):
+                ca, cb = [["read_runtime_data"]], [["read_runtime_data"], ["get_grid_export_limit"]]
+            out.append({"seed": f"{seed}:host:{a}:{b}:{len(out)}", "n_random_merges": 1, "n_concurrent": 1, "same_host": True,
+                        "objects": [{"template": a, "host": "gw0", "port": 8899, "seed": f"{seed}:gA{len(out)}", "calls": ca},
+                                    {"template": b, "host": "gw0", "port": 8898, "seed": f"{seed}:gB{len(out)}", "calls": cb}]})
+    return out
+
+
 def long_history_scenarios(seed):
     """object A has a long Modbus/TCP history behind it (tens of thousands of requests) when object B makes its few calls"""
     out = []
@@ -394,7 +411,7 @@ def run_shard(spec):
     part = Part()
     tier = spec["tier"]
     rnd = random.Random(f"{spec['seed']}:C20")
-    scs = directed_scenarios(spec["seed"]) + fragment_scenarios(spec["seed"]) + long_history_scenarios(spec["seed"])
+    scs = directed_scenarios(spec["seed"]) + fragment_scenarios(spec["seed"]) + long_history_scenarios(spec["seed"]) + same_host_scenarios(spec["seed"])
     pairs = list(itertools.product(TEMPLATES, repeat=2))
     reps = 1 if tier == "quick" else 12
     for r in range(reps):
